@@ -1,7 +1,7 @@
 SPECIFICATION Spec
 CONSTANTS
   MaxOps = 3
-  Groups = {"list", "listns", "tree", "arr", "mat", "ds"}
+  Groups = {"list", "listns", "tree", "arr", "mat", "ds", "memo", "seed"}
   Big = FALSE
   Focus = "L"
   Wide = TRUE
